@@ -1141,6 +1141,11 @@ class Qube(object):
 
         self._readonly_ = Qube._array_is_readonly(self._values_)
 
+        # The default value always has the data type of the values
+        dtype = Qube._dtype(self._values_)
+        if Qube._dtype(self._default_) != dtype:
+            self._default_ = Qube._casted_to_dtype(self._default_, dtype)
+
         # Update the mask if necessary
         if mask is not None:
 
